@@ -240,6 +240,22 @@ def query_clauses(ctx) -> None:
         ctx.check(var in defs and member in defs[var], 'C06.query-clauses', vq, f'`{var}` is generated from {member}', vq.node, key=f'visit_query:{var}')
 
 
+def context_caches(ctx) -> None:
+    """A memoised method of the parser/reader must not read per-query state (self.context: origins, table segments,
+    alias depth): the cache key is the argument only, so a second occurrence in another context would get the first
+    context's result (stale alias handles, stale push-down hints)."""
+    prog = ctx.prog
+    n = 0
+    for fn in prog.functions([m for m in prog.modules if m.startswith(('forml.io.dsl.parser', 'forml.provider.feed.reader'))]):
+        decos = core.decorator_names(fn.node)
+        if not any(d.split('.')[-1] in ('lru_cache', 'cache') for d in decos):
+            continue
+        n += 1
+        reads = 'self.context' in core.src(fn.node) or any(core.call_tail(c) == 'accept' and any(core.src(a) == 'self' for a in c.args) for c in core.calls_in(fn.node))
+        ctx.check(not reads, 'C06.context-cache', fn, f'memoised `{fn.qual}` depends on the per-query parsing context (visits with self / reads self.context) that is not part of its cache key', fn.node, key=f'context-cache:{fn.qual}')
+    ctx.ok('C06.context-cache', PARSER, f'{n} memoised parser methods inspected')
+
+
 def defaults_precedence(ctx) -> None:
     """User supplied reader/feed options override class-level defaults: in ``DEFAULTS | kwargs`` (and {**a, **b}) the
     right operand wins, so the class constant must be the left one."""
@@ -434,6 +450,7 @@ def run(ctx) -> None:
     shared.operator_chain(ctx, 'C06.chain')
     join_flags(ctx)
     query_clauses(ctx)
+    context_caches(ctx)
     defaults_precedence(ctx)
     automaton(ctx)
     shared_state(ctx)
